@@ -66,7 +66,9 @@ def oversize_job(pc, extras):
             n = pc * 1024 + extra
             res.evaluations += 1
             res.nontrivial_count += 1
-            fw = _dfu.firmware(extra, n, 0)
+            # every sixth length: the file ends in a DFU suffix ("UFD", bLength 16) - a .dfu file is still too large as a whole,
+            # the flasher writes the file as it is
+            fw = _dfu.firmware(extra, n, 3 if extra % 6 == 3 else 0)
             # every third length: the part that does not fit is pure 0xFF (what erased flash holds) or pure 0x00 padding
             if extra % 3 == 1:
                 fw = fw[:pc * 1024] + b'\xff' * extra
@@ -139,7 +141,7 @@ def run(tier):
     chk.merge(env.run_shards(_dispatch, jobs))
     chk.exhaustive = True
     chk.rule = ('(a) oversize: every length size+1..size+2048 (16 KiB variant; every 16th on the others in quick, all in thorough) and larger ones '
-                '(random content, or the excess being pure 0xFF / 0x00 fill; the path given directly or through a symbolic link) on the 4 flash sizes: no DNLOAD may reach the simulated device, flash unchanged, exit != 0; (b) fault enumeration: runs of 1, 2, '
+                '(random content, a trailing DFU suffix, or the excess being pure 0xFF / 0x00 fill; the path given directly or through a symbolic link) on the 4 flash sizes: no DNLOAD may reach the simulated device, flash unchanged, exit != 0; (b) fault enumeration: runs of 1, 2, '
                 '3 and 16 pages x every single injection point (erase k, set-address k, write k) x status 1..15 x device behaviour {spec: enters '
                 'dfuERROR and stalls, lenient: reports the status once and carries on} - complete, and again with the device found in dfuERROR at the start (same status as the later fault, or another); plus seed-drawn double injections with busy '
                 'schedules. oracle: done! not printed, exit status != 0, output names the failure. non-trivial = every injection that the run '
